@@ -345,10 +345,12 @@ func (g *progGen) tmplSstoreMatrix() {
 		{Stmts: []Stmt{{K: "sstore", Slot: s, Val: v()}}, Term: Term{K: []string{"revert", "invalid", "return"}[g.pick(3)]}},
 		{Stmts: []Stmt{{K: "sstore", Slot: s, Val: v()}, {K: "call", Addr: selfA(), Sel: 2}, {K: "sload", Slot: s}, {K: "sstore", Slot: s, Val: v()}, {K: "sload", Slot: s}}, Term: Term{K: "return"}},
 		{Stmts: []Stmt{{K: "sstore", Slot: s, Val: v()}}, Term: Term{K: "stop"}},
+		// every dirty-slot case of EIP-2200/3529 in one go
+		{Stmts: []Stmt{{K: "sstore", Slot: s, Val: 9}, {K: "sstore", Slot: s, Val: 0}, {K: "sstore", Slot: s, Val: orig}, {K: "sstore", Slot: s, Val: 0}, {K: "sstore", Slot: s, Val: 9}, {K: "sstore", Slot: s, Val: orig}, {K: "sload", Slot: s}}, Term: Term{K: "return"}},
 	}
 	id := g.deploy(c, "")
 	for n := 2 + g.pick(4); n > 0; n-- {
-		tx := TxSpec{From: g.pick(len(eoas)), To: refA(id), Sel: []int{0, 1, 3, 4, 1}[g.pick(5)]}
+		tx := TxSpec{From: g.pick(len(eoas)), To: refA(id), Sel: []int{0, 1, 3, 4, 1, 5, 5}[g.pick(7)]}
 		if g.chance(30) {
 			tx.AL = []ALSpec{{Addr: *refA(id), Slots: []uint64{s}}}
 		}
@@ -542,6 +544,36 @@ func (g *progGen) tmplRevertDepth() {
 	}
 }
 
+// an inner frame dirties several fresh accounts and reverts; the outer frame
+// then touches the same accounts again
+func (g *progGen) tmplRevertRetouch() {
+	y := []ethcmn.Address{nonexistent1, nonexistent2, precompiles[1]}[g.pick(3)]
+	z := &Contract{Ctor: Section{Term: Term{K: "deploy"}}, Secs: []Section{
+		{Stmts: []Stmt{{K: "call", Addr: fixedA(y), Value: 1, Sel: 0}}, Term: Term{K: "stop"}},
+	}}
+	zid := g.deploy(z, "1000")
+	x := &Contract{Ctor: Section{Term: Term{K: "deploy"}}, Secs: []Section{
+		{Stmts: []Stmt{{K: "sstore", Slot: 0, Val: 1 + g.smallVal()}, {K: "call", Addr: refA(zid), Sel: 0}}, Term: Term{K: []string{"revert", "revert", "invalid", "return"}[g.pick(4)]}},
+	}}
+	if g.chance(30) {
+		x.Secs[0].Stmts = append(x.Secs[0].Stmts, Stmt{K: "log", N: 1, Len: 0})
+	}
+	xid := g.deploy(x, "")
+	after := []Stmt{
+		{K: "call", Addr: fixedA(y), Value: 1},
+		{K: "balance", Addr: fixedA(y)},
+		{K: "call", Addr: refA(zid), Sel: 0},
+		{K: "sstore", Slot: 1, Val: 2},
+	}
+	a := &Contract{Ctor: Section{Term: Term{K: "deploy"}}, Secs: []Section{
+		{Stmts: []Stmt{{K: "call", Addr: refA(xid), Sel: 0}, after[g.pick(len(after))], after[g.pick(len(after))]}, Term: Term{K: "return"}},
+	}}
+	aid := g.deploy(a, "1000")
+	for n := 1 + g.pick(2); n > 0; n-- {
+		g.call(refA(aid), 0, nil, "")
+	}
+}
+
 func (g *progGen) tmplLogs() {
 	c := &Contract{Ctor: Section{Stmts: []Stmt{{K: "log", N: 1, Len: 0}}, Term: Term{K: "deploy"}}}
 	for i := 0; i < 4; i++ {
@@ -698,6 +730,7 @@ var progTemplates = []struct {
 	{"create", 12, (*progGen).tmplCreate},
 	{"selfdestruct", 12, (*progGen).tmplSelfdestruct},
 	{"revert-depth", 8, (*progGen).tmplRevertDepth},
+	{"revert-retouch", 6, (*progGen).tmplRevertRetouch},
 	{"logs", 6, (*progGen).tmplLogs},
 	{"touch-empty", 8, (*progGen).tmplTouchEmpty},
 	{"access-list", 6, (*progGen).tmplAccessList},
